@@ -56,19 +56,58 @@ def bi_fmt_alternate(eng, st, args, d, r, callee=''):
 def bi_arguments_new(eng, st, args, d, r, callee=''):
     return ('value', Agg('Arguments', tuple(args)))
 def bi_argument_new(eng, st, args, d, r, callee=''):
-    return ('value', Agg('Argument', (args[0],)))
+    kind = 'debug' if 'new_debug' in callee else 'display'
+    return ('value', Agg('Argument', (args[0], StrV(kind))))
+
+def templates(prog):
+    """format templates of the four payload modes, read from the probe functions of the shim crate's MIR"""
+    if getattr(prog, '_tpl', None): return prog._tpl
+    out = {}
+    for name in ('fmt_tpl_display', 'fmt_tpl_display_alt', 'fmt_tpl_debug', 'fmt_tpl_debug_alt'):
+        fn = prog.free.get(name)
+        if fn is None: raise Unsupported('shim probe %s missing' % name)
+        tpl = None
+        for bb, (stmts, term) in fn.blocks.items():
+            for s_ in stmts:
+                if s_.kind == 'assign' and s_.rv.kind == 'use' and s_.rv.args[0].kind == 'const' and s_.rv.args[0].const.startswith('b"'):
+                    tpl = s_.rv.args[0].const
+        out[name[len('fmt_tpl_'):]] = tpl
+    prog._tpl = out
+    return out
+
+def arguments_parts(eng, st, a):
+    """Arguments value -> (template text, [(kind, value)])"""
+    tpl = a.f[0]
+    arr = a.f[-1]
+    while isinstance(arr, Ref): arr = eng.deref(st, arr)
+    items = []
+    if isinstance(arr, VecV):
+        for arg in arr.el[:arr.len.v]:
+            p = arg.f[0]
+            while isinstance(p, Ref): p = eng.deref(st, p)
+            items.append((arg.f[1].s if len(arg.f) > 1 else 'display', p))
+    return (tpl.s if isinstance(tpl, StrV) else None), items
+
+def bi_formatter_write_fmt(eng, st, args, d, r, callee=''):
+    """Formatter::write_fmt(f, Arguments): the sink records (template, kind, value) per argument"""
+    tpl, items = arguments_parts(eng, st, args[1])
+    for (kind, p) in items:
+        if isinstance(p, Agg) and p.ty == 'NonZero': p = p.f[0]
+        st.out = getattr(st, 'out', ()) + (('arg', tpl, kind, p),)
+    if not items: st.out = getattr(st, 'out', ()) + (('lit', tpl),)
+    return ('value', ok_unit())
 
 RENDERINGS = ['a', 'a\nb', 'a\n\nb']
 def bi_write_fmt(eng, st, args, d, r, callee=''):
     """<W as fmt::Write>::write_fmt(w, Arguments) : each argument is a payload; its rendering is chosen by rsel[payload id]"""
     w, a = args
-    arr = a.f[-1]
-    while isinstance(arr, Ref): arr = eng.deref(st, arr)
-    assert isinstance(arr, VecV), arr
-    arg = arr.el[0]
-    p = arg.f[0]
-    while isinstance(p, Ref): p = eng.deref(st, p)
-    assert isinstance(p, Opq), p
+    tpl, items = arguments_parts(eng, st, a)
+    if len(items) != 1 or not isinstance(items[0][1], Opq): raise Unsupported('write_fmt with unexpected arguments')
+    kind, p = items[0]
+    tp = templates(eng.prog)
+    alt = tpl in (tp['display_alt'], tp['debug_alt']) and tpl not in (tp['display'], tp['debug'])
+    if not alt and tpl not in (tp['display'], tp['debug']): raise Unsupported('unknown format template %r' % tpl)
+    st.modes = getattr(st, 'modes', ()) + ((kind, alt),)
     choice = eng.render_choice(p.e)       # z3 BV8 expr
     forks = []
     for k, text in enumerate(RENDERINGS):
@@ -128,12 +167,10 @@ def install():
     B[('Formatter', 'write_str')] = bi_fmt_write_str; B[('Formatter', 'write_char')] = bi_fmt_write_char
     B[('Formatter', 'alternate')] = bi_fmt_alternate
     B[('Arguments', 'new')] = bi_arguments_new; B[('Argument', 'new_display')] = bi_argument_new; B[('Argument', 'new_debug')] = bi_argument_new
-    B[('Write', 'write_fmt')] = bi_write_fmt
+    B[('Write', 'write_fmt')] = bi_write_fmt; B[('Formatter', 'write_fmt')] = bi_formatter_write_fmt
     B[('Vec', 'pop')] = bi_vec_pop
     for h in ('[IndentedBlockState]', '[&str]'):
         B[(h, 'len')] = bi_slice_len; B[(h, 'last')] = bi_slice_last; B[(h, 'last_mut')] = bi_slice_last
         B[(h, 'iter')] = bi_slice_iter; B[(h, 'index')] = bi_slice_range; B[(h, 'into_iter')] = bi_slice_iter
     B[('SliceIter', 'next')] = bi_sliceiter_next; B[('SliceIter', 'next_back')] = bi_sliceiter_next_back
     B[('Range', 'into_iter')] = E.bi_identity
-    E.SHIMS[('Iterator', 'rev')] = 'iter_rev'; E.SHIMS[('Iterator', 'take_while')] = 'iter_take_while'
-    E.SHIMS[('Range', 'next')] = 'range_next'; E.SHIMS[('PartialEq', 'ne')] = 'partial_ne'
